@@ -93,13 +93,13 @@ func VerifH_C10_glyf() {
 // VerifH_C10_cmap: every character that mapped to a retained glyph maps to its new index; no other character is mapped.
 func VerifH_C10_cmap() {
 	f := verifTTFont(glyf.Glyphs{verifSimpleGlyph(0), verifSimpleGlyph(1), verifSimpleGlyph(2), verifSimpleGlyph(3), verifSimpleGlyph(4)})
-	codes := []rune{'A', 'B', 0x1F600}
-	targets := []glyph.ID{glyph.ID(verifU16("ta")), glyph.ID(verifU16("tb")), glyph.ID(verifU16("tc"))}
+	codes := []rune{'A', 'B', 'C', 0x1F600}
+	targets := []glyph.ID{glyph.ID(verifU16("ta")), glyph.ID(verifU16("tb")), glyph.ID(verifU16("tc")), glyph.ID(verifU16("td"))}
 	for _, t := range targets {
 		verifAssume(t >= 1 && t <= 4)
 	}
 	f.CMapTable = verifCmap12(codes, targets)
-	list := append([]glyph.ID{0}, verifDistinctGIDs("pick", 1+verifChoose("listed", 2), 1, 4)...)
+	list := append([]glyph.ID{0}, verifDistinctGIDs("pick", 1+verifChoose("listed", 3), 1, 4)...)
 	sub := f.Subset(list)
 	verifReach("subset")
 	newIdx := map[glyph.ID]glyph.ID{}
@@ -126,7 +126,7 @@ func VerifH_C10_cmap() {
 		}
 		verifAssert(st.Lookup(c) == want, "characters of retained glyphs map to the new index, others are unmapped")
 	}
-	verifAssert(st.Lookup('Z') == 0, "no other character is mapped")
+	verifAssert(st.Lookup('Z') == 0 && st.Lookup('@') == 0 && st.Lookup('D') == 0, "no other character is mapped")
 	_ = cmap.Key{}
 }
 
@@ -136,18 +136,28 @@ func VerifH_C10_layout() {
 	lig := gtab.Ligature{In: []glyph.ID{2}, Out: 3}
 	f.Gsub = &gtab.Info{LookupList: gtab.LookupList{{Meta: &gtab.LookupMetaInfo{LookupType: 4}, Subtables: []gtab.Subtable{&gtab.Gsub4_1{Cov: coverage.Table{1: 0}, Repl: [][]gtab.Ligature{{lig}}}}}}}
 	kern := &gtab.GposValueRecord{XAdvance: -50}
-	f.Gpos = &gtab.Info{LookupList: gtab.LookupList{{Meta: &gtab.LookupMetaInfo{LookupType: 2}, Subtables: []gtab.Subtable{gtab.Gpos2_1{glyph.Pair{Left: 1, Right: 4}: &gtab.PairAdjust{First: kern}}}}}}
+	// one kerning pair between two solver-chosen glyphs (the ligature glyph 3 included)
+	kl, kr := verifDistinctGIDs("kern", 1, 1, 4)[0], verifDistinctGIDs("kern", 1, 1, 4)[0]
+	f.Gpos = &gtab.Info{LookupList: gtab.LookupList{{Meta: &gtab.LookupMetaInfo{LookupType: 2}, Subtables: []gtab.Subtable{gtab.Gpos2_1{glyph.Pair{Left: kl, Right: kr}: &gtab.PairAdjust{First: kern}}}}}}
 	list := append([]glyph.ID{0}, verifDistinctGIDs("pick", 2+verifChoose("listed", 2), 1, 4)...)
 	sub := f.Subset(list)
 	verifReach("subset")
+	nw := sub.Outlines.(*glyf.Outlines)
+	// retained glyphs: the listed ones plus the ligature glyph when both of its components are listed
+	// (glyph names identify the outlines: name "g<k>" belongs to the original glyph k)
 	newIdx := map[glyph.ID]glyph.ID{}
 	for i, g := range list {
 		newIdx[g] = glyph.ID(i)
 	}
-	n1, has1 := newIdx[1]
-	n2, has2 := newIdx[2]
-	n4, has4 := newIdx[4]
-	nw := sub.Outlines.(*glyf.Outlines)
+	_, has1 := newIdx[1]
+	_, has2 := newIdx[2]
+	if _, has3 := newIdx[3]; has1 && has2 && !has3 {
+		verifAssert(len(nw.Names) == len(list)+1 && nw.Names[len(list)] == "g3", "the ligature glyph needed by a retained rule is appended")
+		newIdx[3] = glyph.ID(len(list))
+	} else {
+		verifAssert(len(nw.Names) == len(list), "no other glyph is appended")
+	}
+	n1, n2 := newIdx[1], newIdx[2]
 	if has1 && has2 {
 		// the ligature 1 2 -> 3 must survive: shaping [new1 new2] gives the glyph that was glyph 3
 		verifAssert(sub.Gsub != nil && len(sub.Gsub.LookupList) == 1, "ligature lookup kept")
@@ -159,24 +169,26 @@ func VerifH_C10_layout() {
 		}
 	}
 	// kerning pairs survive exactly when both glyphs are retained (a pair must never be re-targeted at other glyphs)
+	nl, hasL := newIdx[kl]
+	nr, hasR := newIdx[kr]
 	if sub.Gpos != nil {
 		for _, lt := range sub.Gpos.LookupList {
 			for _, st := range lt.Subtables {
 				if p2, ok := st.(gtab.Gpos2_1); ok {
 					want := 0
-					if has1 && has4 {
+					if hasL && hasR {
 						want = 1
 					}
 					verifAssert(len(p2) == want, "only kerning pairs among retained glyphs are kept")
 					for pair := range p2 {
-						verifAssert(pair.Left == n1 && pair.Right == n4, "kept pairs name the re-indexed glyphs")
+						verifAssert(pair.Left == nl && pair.Right == nr, "kept pairs name the re-indexed glyphs")
 					}
 				}
 			}
 		}
 	}
-	if has1 && has4 {
-		seq := []glyph.Info{{GID: n1, Advance: 100}, {GID: n4, Advance: 500}}
+	if hasL && hasR {
+		seq := []glyph.Info{{GID: nl, Advance: 100}, {GID: nr, Advance: 500}}
 		verifAssert(sub.Gpos != nil && len(sub.Gpos.LookupList) == 1, "kerning lookup kept")
 		if sub.Gpos != nil && len(sub.Gpos.LookupList) == 1 {
 			out := gtab.NewContext(sub.Gpos.LookupList, nil, []gtab.LookupIndex{0}).Apply(seq)
